@@ -66,7 +66,7 @@ Proof. decide equality; apply string_dec. Defined.
 Definition resp_eq_dec : forall a b : resp, {a = b} + {a <> b}.
 Proof.
   decide equality; try apply N.eq_dec; try apply string_dec; try apply bool_dec; try apply err_eq_dec;
-    try (apply list_eq_dec; apply sspair_eq_dec).
+    try (apply list_eq_dec; apply sspair_eq_dec); try (apply list_eq_dec; apply string_dec).
   decide equality; apply string_dec.
 Defined.
 Definition fevent_eq_dec : forall a b : fevent, {a = b} + {a <> b}.
@@ -555,7 +555,7 @@ Definition chk_step_C11 : step_chk := fun prev x o ob =>
       | _ => rows_eqb (sn_rows prev) (sn_rows post) && strs_eqb (sn_colls prev) (sn_colls post)
       end
   | SPurge => strs_eqb (sn_colls prev) (sn_colls post)
-  | SDump _ _ => rows_eqb (sn_rows prev) (sn_rows post) && strs_eqb (sn_colls prev) (sn_colls post)
+  | SDump _ _ | SQuery _ _ => rows_eqb (sn_rows prev) (sn_rows post) && strs_eqb (sn_colls prev) (sn_colls post)
   | SExpire | SReopen => strs_eqb (sn_colls prev) (sn_colls post)
   end.
 
@@ -716,3 +716,36 @@ Definition chk_ttl_row (s : store) (reopen_ms : N) (o : ttl_obs) : bool :=
 Definition chk_ttl (t : scase * ttl_run) : bool :=
   let s := sfinal_from store0 (sc_steps (fst t)) in
   forallb (chk_ttl_row s (tr_reopen_ms (snd t))) (tr_rows (snd t)).
+
+(* ------------------------------------------------------------------------------------------ *)
+(* C19: a query over $_keyspace equals the same query evaluated over a key-value read-back of the
+   collection (the documents that GetRaw returns, with the xattrs GetWithXattrs returns)          *)
+
+Definition readback_docs (s : snapshot) (coll : string) : list qdoc :=
+  flat_map (fun e : (string * string) * obsrow =>
+              if String.eqb (fst (fst e)) coll then
+                match o_get (snd e), o_doc (snd e) with
+                | RVal v _, RDoc _ xs _ => [(snd (fst e), v, real_xattrs xs)]
+                | _, _ => []
+                end
+              else []) (sn_rows s).
+
+Definition strs_eqb' (a b : list string) : bool := if list_eq_dec string_dec a b then true else false.
+
+Fixpoint nodup_strs (l : list string) : bool :=
+  match l with [] => true | x :: r => negb (existsb (String.eqb x) r) && nodup_strs r end.
+
+Definition chk_step_C19 : step_chk := fun prev x o ob =>
+  match o with
+  | SQuery coll q =>
+      match os_resp ob with
+      | RRows rows =>
+          strs_eqb' rows (eval_query q (readback_docs prev coll))
+          && match q with QCount => true | _ => nodup_strs rows end        (* every row once *)
+      | _ => false
+      end
+  | _ => true
+  end.
+
+Definition chk_C19_kv (t : scase * list ostep) : bool :=
+  walk chk_step_C19 (snap0 (fst t)) (sc_steps (fst t)) (snd t).
